@@ -261,7 +261,7 @@ parse_next_record_header:
         rc = tls13ParseChangeCipherSpec(ssl, &pb, requiredLen);
         HANDLE_PARSE_RC(rc, SSL_ALERT_ILLEGAL_PARAMETER);
         psTraceInfo("Ignoring change_cipher_spec...\n");
-        parsedBytes += pb.buf.start - *in;
+        parsedBytes = pb.buf.start - *in;
         if (pb.buf.start != pb.buf.end)
         {
             /* There is more data to be parsed */
